@@ -300,10 +300,7 @@ func (e *lockupEnv) keeperTail(steps int, lastID *uint64, ms lockuptypes.MsgServ
 			}
 			if ok {
 				res = "ok"
-				e.codedAdd(sd, l.dur, -l.amt) // the code decreases at the LOCK's duration
-				if sy.dur != l.dur {
-					e.pendingCause = "synthetic-lock-shorter-than-lock-deleted"
-				}
+				e.codedAdd(sd, sy.dur, -l.amt) // the code decreases at the SYNTHETIC lock's duration (repo fix a5a45987b4; before it: the lock's)
 				delete(e.synth, l.id)
 			}
 		case "addtolock":
@@ -386,10 +383,7 @@ func (e *lockupEnv) keeperTail(steps int, lastID *uint64, ms lockuptypes.MsgServ
 			}
 			res = "ok"
 			if sy := e.synth[l.id]; sy != nil {
-				e.codedAdd(sy.denom, l.dur, -l.amt)
-				if sy.dur != l.dur {
-					e.pendingCause = "synthetic-lock-shorter-than-lock-deleted"
-				}
+				e.codedAdd(sy.denom, sy.dur, -l.amt)
 				delete(e.synth, l.id)
 				o.Count("tail.keeperforceunlock.breaks-synthetic-lock")
 			}
@@ -453,10 +447,7 @@ func (e *lockupEnv) keeperTail(steps int, lastID *uint64, ms lockuptypes.MsgServ
 			for id, sy := range e.synth {
 				if sy.end != 0 && sy.end <= now {
 					if l, ok := e.shadow[id]; ok {
-						e.codedAdd(sy.denom, l.dur, -l.amt)
-						if sy.dur != l.dur {
-							e.pendingCause = "synthetic-lock-shorter-than-lock-deleted"
-						}
+						e.codedAdd(sy.denom, sy.dur, -l.amt)
 					}
 					delete(e.synth, id)
 					o.Count("tail.endblock.matured-synthetic-lock-deleted")
